@@ -780,8 +780,10 @@ func (w *rcWorld) observeCut(sub string, res *Result) Result {
 	if sub == "recovery" {
 		res.Out = fmt.Sprintf("ok marker=%d topo=%d cons=%s", o.marker, o.topo, o.cons)
 		if o.marker != want {
+			// "that snapshot or a later one": later by timestamp, or a second snapshot of the
+			// very same consensus transaction (the marker names the operation once)
 			got := w.snaps[o.marker]
-			if got == nil || got.Timestamp < wantTs {
+			if got == nil || (got.Timestamp < wantTs && got.Transactions[0] != w.snaps[want].Transactions[0]) {
 				res.PropKey = "C21:marker-stale-after-foreign-snapshot"
 				res.PropDesc = fmt.Sprintf("consensus snapshot %d is durably finalized, after restart ReadLastConsensusSnapshot returns snapshot %d", want, o.marker)
 			}
@@ -1025,14 +1027,21 @@ var rcWitness = []string{"reset", "genesis 7",
 	"tx 9 2 8 1 1708 0", "lock 9", "wtx 9", "snap 9 1 1 1001000000 8 1 9",
 	"tx 10 0 0 1 1 0", "lock 10", "wtx 10", "cut", "snap 10 2 1 1002000000 9 1 10", "cut", "mark 9", "cut"}
 
+// the excluded point of SnapProto: the same consensus transaction finalized a second time, on
+// another chain (the kernel's reference check lets it pass; the marker keeps the first snapshot)
+var rcDuplicateConsensus = []string{"reset", "genesis 7",
+	"tx 9 2 8 1 1708 0", "lock 9", "wtx 9", "snap 9 1 1 1001000000 8 1 9", "mark 9", "cut",
+	"snap 10 3 1 1003000000 9 1 9", "cut", "mark 10", "cut",
+	"tx 10 2 9 1 1709 0", "lock 10", "wtx 10", "snap 11 1 1 1005000000 10 1 10", "cut", "mark 11", "cut"}
+
 func init() {
 	rule := "random multi-chain workloads over a generated 7-node genesis in a real Badger directory: deposits, script " +
 		"spends, two-transaction and duplicate-inclusion snapshots, round transitions with external links, and " +
 		"consensus-class snapshots (mint, pledge, cancel, remove) interleaved with 0-2 foreign snapshots before the marker " +
 		"write; `cut` = real close/copy/reopen + kernel.SetupNode (every boundary in thorough, 1/4 sampled in quick); " +
 		"non-trivial = a storage call that committed, or a restart; distinct = distinct op line"
-	Register(&Subsystem{Name: "recovery", Rule: rule, Gen: rcGenCase, Exec: rcExec("recovery"), Corpus: [][]string{rcWitness}})
-	Register(&Subsystem{Name: "ledgercrash", Rule: rule, Gen: rcGenCase, Exec: rcExec("ledgercrash"), Corpus: [][]string{rcWitness}})
+	Register(&Subsystem{Name: "recovery", Rule: rule, Gen: rcGenCase, Exec: rcExec("recovery"), Corpus: [][]string{rcWitness, rcDuplicateConsensus}})
+	Register(&Subsystem{Name: "ledgercrash", Rule: rule, Gen: rcGenCase, Exec: rcExec("ledgercrash"), Corpus: [][]string{rcWitness, rcDuplicateConsensus}})
 }
 
 var _ = bytes.Equal
